@@ -1267,3 +1267,279 @@ def replay(ctx, path):
         return 1
     print(json.dumps(f, indent=1))
     return 1
+
+
+# =============================================================================================
+# meta_value_internal.py: the `value` property of MetaItem (model MetaValue.v, theorems C09_meta_value_*,
+# case checkers MetaValueRun.v)
+# =============================================================================================
+import importlib as _importlib
+
+from harness.common import coq_str
+
+META_PREAMBLE = 'From AB Require Import Prelude NumExpr NumExprRun MetaValue MetaValueRun.'
+SIG_META_GET = 'C09:meta-value:get-after-set'
+SIG_META_REPARSE = 'C09:meta-value:reparse'
+META_DOC = '2000-01-01 open Assets:A\n  aa:{}\n  bb: "keep"\n'
+# current content of the slot: every raw kind of `meta_value`, and absent
+META_CURRENT = [('absent', ''), ('string', ' "s"'), ('date', ' 2001-02-03'), ('number', ' 1 + 2'), ('number', ' -4'),
+                ('bool', ' TRUE'), ('account', ' Assets:B'), ('currency', ' USD'), ('tag', ' #tag'), ('null', ' NULL'),
+                ('amount', ' 3 USD')]
+META_RAW_TEXT = {'string': '"r"', 'date': '1999-12-31', 'number': '5 * 6', 'bool': 'FALSE', 'account': 'Assets:R',
+                 'currency': 'EUR', 'tag': '#rr', 'null': 'NULL', 'amount': '-7 CAD'}
+# new value: [kind, payload]
+META_NEW = ([['none', None], ['str', 'x"y'], ['str', ''], ['date', [2024, 2, 29]], ['datetime', [2001, 2, 3, 4, 5]],
+             ['dec', '-3.5'], ['dec', '4'], ['dec', '1E+3'], ['bool', True], ['bool', False], ['same', None]]
+            + [['raw', k] for k in META_RAW_TEXT] + [['attached', k] for k in ('string', 'number', 'account', 'amount')])
+_MV = {}
+
+
+def _mv():
+    if not _MV:
+        from harness import c13
+        _MV.update(c13=c13, mvi=_importlib.import_module('autobean_refactor.models.meta_value_internal'))
+    return _MV
+
+
+class _MetaOdd(Exception):
+    pass
+
+
+def meta_content(r) -> str:
+    models, _, _ = impl()
+    c13 = _mv()['c13']
+    try:
+        if isinstance(r, models.NumberExpr):
+            return f'(RNumber {c13.coq_tree(c13.observe(r)[1])})'
+        if isinstance(r, models.Amount):
+            return f'(RAmount {c13.coq_tree(c13.observe(r.raw_number)[1])} {coq_str(r.raw_currency.raw_text)})'
+    except c13.Malformed as e:
+        raise _MetaOdd(f'malformed number expression: {e}')
+    for cls, con in (('EscapedString', 'RString'), ('Date', 'RDate'), ('Bool', 'RBool'), ('Account', 'RAccount'),
+                     ('Currency', 'RCurrency'), ('Tag', 'RTag'), ('Null', 'RNull')):
+        if isinstance(r, getattr(models, cls)):
+            return f'({con} {coq_str(r.raw_text)})'
+    raise _MetaOdd(f'unexpected raw meta value {type(r).__name__}')
+
+
+def meta_rawm(r, ids: dict) -> str:
+    """option rawm; identities: known objects by their number, anything else is `new` (1000000)"""
+    if r is None:
+        return 'None'
+    return f'(Some (RM {ids.get(id(r), 1000000)} {meta_content(r)}))'
+
+
+def meta_norm(x):
+    """a Date token built from a datetime.datetime hands that very object back until the text is re-read; the model and
+    the re-parse know its date only"""
+    return x.date() if isinstance(x, datetime.datetime) else x
+
+
+def meta_mval(x, ids: dict, raw=None) -> str:
+    models, _, _ = impl()
+    c13 = _mv()['c13']
+    if x is None:
+        return 'MNone'
+    if isinstance(x, str):
+        return f'(MStr {coq_str(x)})'
+    if isinstance(x, bool):
+        return f'(MBool {coq_bool(x)})'
+    if isinstance(x, datetime.datetime):
+        return f'(MDateTime ({x.year}, {x.month}, {x.day}) {x.hour * 60 + x.minute})'
+    if isinstance(x, datetime.date):
+        return f'(MDate ({x.year}, {x.month}, {x.day}))'
+    if isinstance(x, D):
+        if raw is not None:      # read from a NumberExpr: the evaluation term of its text
+            return f'(MDec {c13.coq_term(c13.term_of_text(text_of(raw)))})'
+        return f'(MDec (SExt {coq_bool(x < 0)} {coq_str(format(x.copy_abs(), "f"))}))'
+    return f'(MRaw (RM {ids.get(id(x), 1000000)} {meta_content(x)}))'
+
+
+def meta_build_raw(kind: str, attached: bool):
+    models, parser, _ = impl()
+    if attached:
+        f = parser.parse(META_DOC.format(' ' + META_RAW_TEXT[kind]), models.File)
+        return f.raw_directives[0].raw_meta[0].raw_value, f
+    cls = {'string': 'EscapedString', 'date': 'Date', 'number': 'NumberExpr', 'bool': 'Bool', 'account': 'Account',
+           'currency': 'Currency', 'tag': 'Tag', 'null': 'Null', 'amount': 'Amount'}[kind]
+    if kind in ('number', 'amount'):
+        return parser.parse(META_RAW_TEXT[kind], getattr(models, cls)), None
+    return getattr(models, cls).from_raw_text(META_RAW_TEXT[kind]), None
+
+
+def meta_build_value(new, current_raw):
+    """-> (python value, detachable, keep-alive)"""
+    k, p = new
+    if k == 'none':
+        return None, True, None
+    if k == 'str':
+        return p, True, None
+    if k == 'date':
+        return datetime.date(*p), True, None
+    if k == 'datetime':
+        return datetime.datetime(*p), True, None
+    if k == 'dec':
+        return D(p), True, None
+    if k == 'bool':
+        return bool(p), True, None
+    if k == 'same':
+        return current_raw, False, None
+    r, keep = meta_build_raw(p, k == 'attached')
+    return r, k != 'attached', keep
+
+
+def meta_one(ci: int, ni: int):
+    """item.value = v on a freshly parsed document -> (coq case or None, monitor failures, description)"""
+    models, parser, _ = impl()
+    c13 = _mv()['c13']
+    kind, text = META_CURRENT[ci]
+    new = META_NEW[ni]
+    f = parser.parse(META_DOC.format(text), models.File)
+    item = f.raw_directives[0].raw_meta[0]
+    cur = item.raw_value
+    v, det, keep = meta_build_value(new, cur)
+    if new[0] == 'same' and cur is None:
+        return None, [], None
+    ids = {}
+    if cur is not None:
+        ids[id(cur)] = 1
+    if v is not None and not isinstance(v, (str, datetime.date, bool, D)):
+        ids.setdefault(id(v), 2)
+    before = meta_rawm(cur, ids)
+    vq = meta_mval(v, ids)
+    text_before = text_of(f)
+    exc = 0
+    try:
+        item.value = v
+    except ValueError:
+        exc = 1
+    except Exception as e:      # noqa: BLE001 - any other class disagrees with the model
+        exc = 9
+    after_raw = item.raw_value
+    after = meta_rawm(after_raw, ids)
+    fails = []
+    try:
+        got = c13.safe(lambda: item.value)
+    except Exception as e:      # noqa: BLE001
+        got = None
+        fails.append((SIG_META_GET, f'reading MetaItem.value raises {type(e).__name__}'))
+    read = meta_mval(meta_norm(got), ids, raw=after_raw if isinstance(after_raw, models.NumberExpr) else None)
+    desc = {'kind': 'meta-value', 'current': ci, 'new': ni}
+    # the property's own statement
+    if exc == 0:
+        simple = isinstance(v, (models.EscapedString, models.Date, models.Bool, models.NumberExpr))
+        want = c13.safe(lambda: v.value) if simple else v
+        same = (got is want) if (want is not None and not isinstance(want, (str, datetime.date, bool, D))) else \
+            (meta_norm(got) == meta_norm(want) and type(meta_norm(got)) is type(meta_norm(want)))
+        if not same:
+            fails.append((SIG_META_GET, f'MetaItem.value = {v!r} on a {kind} slot; it reads {got!r}'))
+        if text_of(f).splitlines()[2:] != text_before.splitlines()[2:] or text_of(f).splitlines()[0] != text_before.splitlines()[0]:
+            fails.append((SIG_GEN_FRAME, f'MetaItem.value = {v!r} changed text outside the item: {text_of(f)!r}'))
+        try:
+            again = parser.parse(text_of(f), models.File).raw_directives[0].raw_meta[0]
+            if simple or want is None or isinstance(want, (str, datetime.date, bool, D)):
+                ok = c13.safe(lambda: again.value) == meta_norm(want) if want is not None else again.value is None
+            else:
+                ok = again.raw_value is not None and text_of(again.raw_value) == text_of(want) \
+                    and type(again.raw_value) is type(want)
+            if not ok:
+                fails.append((SIG_META_REPARSE, f'MetaItem.value = {v!r}: {text_of(f)!r} re-parses to value {again.value!r}'))
+        except Exception as e:      # noqa: BLE001
+            fails.append((SIG_META_REPARSE, f'MetaItem.value = {v!r}: {text_of(f)!r} is refused by the parser ({type(e).__name__})'))
+    elif text_of(f) != text_before:
+        fails.append((SIG_GEN_FRAME, f'refused MetaItem.value = {v!r} changed the document'))
+    coq = f'mkmcase {before} {vq} {coq_bool(det)} {exc} {after} {read}'
+    return coq, fails, desc
+
+
+def meta_module_cases():
+    """update_value / from_value called directly on free-standing raw models"""
+    models, parser, _ = impl()
+    mvi = _mv()['mvi']
+    ucases, fcases, errors = [], [], []
+    scalars = [n for n in META_NEW if n[0] not in ('same', 'attached')]
+    for kind in [None] + list(META_RAW_TEXT):
+        for new in scalars:
+            r = meta_build_raw(kind, False)[0] if kind else None
+            v, _, _ = meta_build_value(new, None)
+            ids = {id(r): 1} if r is not None else {}
+            if v is not None and not isinstance(v, (str, datetime.date, bool, D)):
+                ids[id(v)] = 2
+            before, vq = meta_rawm(r, ids), meta_mval(v, ids)
+            try:
+                ok = bool(mvi.update_value(r, v))
+                ucases.append(f'({before}, {vq}, {coq_bool(ok)}, {meta_rawm(r, ids)})')
+            except Exception as e:      # noqa: BLE001 - the model never raises here
+                errors.append(f'update_value({kind} model, {new}) raises {type(e).__name__}: {e}')
+    for new in scalars:
+        v, _, _ = meta_build_value(new, None)
+        ids = {id(v): 2} if v is not None and not isinstance(v, (str, datetime.date, bool, D)) else {}
+        vq = meta_mval(v, ids)
+        try:
+            fcases.append(f'({vq}, {meta_rawm(mvi.from_value(v), ids)})')
+        except Exception as e:      # noqa: BLE001
+            errors.append(f'from_value({new}) : {type(e).__name__}: {e}')
+    return ucases, fcases, errors
+
+
+def check_meta_value(ctx: common.Ctx, only=None):
+    if not ctx.require_coq([], extra_targets=['MetaValueRun']):
+        return
+    ctx.assumptions.append('MetaItem.value: the slot edit itself (optional_node_property: create/remove/replace_node) is C03; '
+                           'a Date token built from a datetime.datetime caches that object until re-read (compared as its date)')
+    pairs = [only] if only else [(ci, ni) for ci in range(len(META_CURRENT)) for ni in range(len(META_NEW))]
+    cases = []
+    for ci, ni in pairs:
+        try:
+            coq, fails, desc = meta_one(ci, ni)
+        except Exception as e:      # noqa: BLE001 - a shape the model does not have (incl. a document that no longer prints)
+            ctx.fail('corr', 'meta-value-unexpected-shape', f'{type(e).__name__}: {e}',
+                     {'kind': 'meta-value', 'current': ci, 'new': ni})
+            continue
+        if coq is None:
+            continue
+        for sig, what in fails:
+            ctx.monitor_failure(sig, what, desc)
+        ctx.case(desc, nontrivial=True)
+        ctx.dist(f'meta-value:{META_CURRENT[ci][0]}<-{META_NEW[ni][0]}')
+        cases.append((coq, desc))
+    bad = ctx.run_coq_cases('meta', META_PREAMBLE, 'mcase', 'check_mcase', [c for c, _ in cases], chunk=60)
+    ctx.count('traces_validated_against_impl', len(cases) - len(bad))
+    for i in bad[:3]:
+        ctx.fail('corr', 'meta-value-correspondence', 'MetaItem.value setter and MetaValue.set disagree', cases[i][1])
+    if only:
+        return
+    ucases, fcases, errors = meta_module_cases()
+    for what in errors[:3]:
+        ctx.fail('corr', 'meta-module-correspondence', what, {'kind': 'meta-module'})
+    bad = ctx.run_coq_cases('meta_update', META_PREAMBLE, 'option rawm * mval sym * bool * option rawm', 'check_ucase',
+                            ucases, chunk=100)
+    ctx.count('traces_validated_against_impl', len(ucases) - len(bad))
+    for i in bad[:2]:
+        ctx.fail('corr', 'meta-update-value-correspondence', 'update_value and MetaValue.update_value disagree',
+                 {'kind': 'meta-update', 'case': ucases[i][:400]})
+    bad = ctx.run_coq_cases('meta_from', META_PREAMBLE, 'mval sym * option rawm', 'check_fcase', fcases, chunk=100)
+    ctx.count('traces_validated_against_impl', len(fcases) - len(bad))
+    for i in bad[:2]:
+        ctx.fail('corr', 'meta-from-value-correspondence', 'from_value and MetaValue.from_value disagree',
+                 {'kind': 'meta-from', 'case': fcases[i][:400]})
+
+
+_body0, _replay0 = body, replay
+
+
+def body(ctx: common.Ctx):      # noqa: F811 - extends the check above
+    _body0(ctx)
+    check_meta_value(ctx)
+
+
+def replay(ctx, path):      # noqa: F811
+    data = json.loads(open(path).read())
+    f = data.get('failure') or (data.get('what_no_longer_checks') or [{}])[0]
+    w = f.get('witness') or {}
+    if isinstance(w, dict) and w.get('kind') == 'meta-value':
+        coq, fails, desc = meta_one(w['current'], w['new'])
+        print(META_CURRENT[w['current']], META_NEW[w['new']], fails)
+        check_meta_value(ctx, only=(w['current'], w['new']))
+        return 1 if (fails or ctx.failures) else 0
+    return _replay0(ctx, path)
